@@ -11,7 +11,7 @@ func init() {
 		ID: "C03",
 		Rule: "rapid histories of the world machine weighted to concurrent undelegations (precompile path with per-chain LayerZero nonces, native path with multi-operator messages) over operators in every lifecycle state, with block/epoch ends; " +
 			"non-trivial = at least 2 overlapping pending records, at least one hold observed and at least one release; distinct = hash of the (kind, outcome) sequence",
-		Gen:        GenOpts{Weights: w, HostilePct: 6, ExtremePct: 0, MaxDt: 35},
+		Gen:        GenOpts{Weights: w, HostilePct: 6, ExtremePct: 0, MaxDt: 35, Anchor: true, Tempos: []int{2, 5, 12, 35}, CapBits: 90},
 		MinSteps:   25,
 		MaxSteps:   80,
 		Config:     worldConfig,
